@@ -317,6 +317,7 @@ func runC07(c *Ctx) {
 	}
 	c07Ending(c)
 	c07Abandoned(c)
+	c07CancelRace(c)
 	c07SubAckVectors(c)
 	if last != nil {
 		c.Sample(map[string]any{"wire": last.TraceStrings()})
@@ -574,5 +575,77 @@ func c07Abandoned(c *Ctx) {
 			}
 			c.Explore(sc)
 		}
+	}
+}
+
+// c07CancelRace: family G.  The caller's context ends at the very instant an acknowledgement becomes
+// readable.  Whatever the call returns, success still means that the whole exchange took place: for
+// QoS 2, PUBREC answered by PUBREL and PUBCOMP received.
+func c07CancelRace(c *Ctx) {
+	c.Bound("G", "one QoS 2 Publish; the caller's context is cancelled in the same instant as PUBREC (or PUBCOMP) arrives, with or without a stray PUBCOMP sent first; P<=1, S<=2; a nil result requires that the peer received PUBREL and sent PUBCOMP")
+	for _, at := range []string{"pubrec", "pubcomp", "stray-pubcomp-then-pubrec"} {
+		at := at
+		var net *env.Net
+		sc := &vrt.Scenario{
+			Name:  "C07/G/cancel-at-" + at,
+			Bound: vrt.Budget{P: 1, S: 2},
+			Body: func() {
+				net = env.NewNet()
+				s := env.NewScript(net)
+				s.AutoConnAck = true
+				ctx, cancel := vctx.WithCancel(vctx.Background())
+				var pub *env.Packet
+				gotRel, sentComp := false, false
+				s.OnPacket = func(_ *env.Script, p *env.Packet) {
+					switch p.Type {
+					case env.PUBLISH:
+						pub = p
+					case env.PUBREL:
+						gotRel = true
+						s.Conn.Send(env.EncAck(env.PUBCOMP, p.ID), "")
+						sentComp = true
+						if at == "pubcomp" {
+							cancel()
+						}
+					}
+				}
+				cli := &mqtt.BaseClient{Transport: s.Conn}
+				if _, err := cli.Connect(vctx.Background(), "c07"); err != nil {
+					vrt.Failf("harness", "connect: %v", err)
+					return
+				}
+				done := false
+				var err error
+				vrt.Go("publisher", func() {
+					err = cli.Publish(ctx, &mqtt.Message{Topic: "t", QoS: mqtt.QoS2, Payload: []byte("m")})
+					done = true
+				})
+				vrt.Settle()
+				if pub == nil || done {
+					vrt.Failf("c07/success-without-ack:p2:before-any-answer", "QoS 2 Publish returned %v before anything was answered", err)
+					return
+				}
+				if at == "stray-pubcomp-then-pubrec" {
+					s.Conn.Send(env.EncAck(env.PUBCOMP, pub.ID), "PUBCOMP ahead of PUBREC")
+				}
+				s.Conn.Send(env.EncAck(env.PUBREC, pub.ID), "")
+				if at != "pubcomp" {
+					cancel()
+				}
+				vrt.Settle()
+				if !done {
+					vrt.Failf("c07/not-returned-after-cancel", "QoS 2 Publish has not returned although its context ended (cancel at %s)", at)
+					return
+				}
+				if err == nil && (!gotRel || !sentComp) {
+					vrt.Failf("c07/success-without-ack:p2:cancel-at-"+at, "QoS 2 Publish returned nil with its context ending at %s, but PUBREL received by the peer=%v, PUBCOMP sent=%v\n wire:\n  %s", at, gotRel, sentComp, strings.Join(net.TraceStrings(), "\n  "))
+				}
+				cancel()
+				cli.Close()
+				vrt.Quiesce()
+			},
+			Observe: func() uint64 { return net.TraceHash() },
+		}
+		c.Explore(sc)
 	}
 }
